@@ -28,6 +28,7 @@ pub mod c26;
 pub mod c27;
 pub mod c28;
 pub mod c29;
+pub mod c30;
 pub mod c31;
 pub mod c32;
 pub mod c34;
@@ -64,6 +65,7 @@ pub fn run(ctx: &Ctx, id: &str) -> bool {
         "C27" => c27::run(ctx),
         "C28" => c28::run(ctx),
         "C29" => c29::run(ctx),
+        "C30" => c30::run(ctx),
         "C31" => c31::run(ctx),
         "C32" => c32::run(ctx),
         "C34" => c34::run(ctx),
